@@ -16,6 +16,9 @@ Open Scope N_scope.
 Definition pos := (Z * Z)%type.           (* physical (line, column), both 1-based *)
 Definition achar := (N * pos)%type.
 
+(* a plain character list with dummy annotations *)
+Definition blank (cs : list N) : list achar := List.map (fun c => (c, (0, 0)%Z)) cs.
+
 (* ------------------------------------------------------------------ Part 1: declarative *)
 
 (* 5.1.1.2 phase 2: each backslash immediately followed by a new-line is deleted (one left-to-right pass) *)
